@@ -3,6 +3,7 @@ package main
 import (
 	"context"
 	"encoding/json"
+	"errors"
 	"os"
 	"runtime/metrics"
 	"sync"
@@ -20,13 +21,19 @@ type guardCtx struct {
 	deadline       time.Time
 	budget, fired  bool
 	closed, open   chan struct{}
+	cancel         context.CancelCauseFunc
 }
 
 const heapLimit = 3 << 30
 
+// errGuardCause is the CAUSE the context is cancelled with: Next must return the context's error (context.Canceled),
+// not whatever context.Cause reports.
+var errGuardCause = errors.New("verif: cancellation cause (must not be returned by Next)")
+
 func newGuardCtx(k, maxPolls int, d time.Duration) *guardCtx {
-	c := &guardCtx{Context: context.Background(), k: k, maxPolls: maxPolls, deadline: time.Now().Add(d),
-		closed: make(chan struct{}), open: make(chan struct{})}
+	inner, cancel := context.WithCancelCause(context.Background())
+	c := &guardCtx{Context: inner, k: k, maxPolls: maxPolls, deadline: time.Now().Add(d),
+		closed: make(chan struct{}), open: make(chan struct{}), cancel: cancel}
 	close(c.closed)
 	return c
 }
@@ -48,11 +55,13 @@ func (c *guardCtx) Done() <-chan struct{} {
 	}
 	if c.k > 0 && c.n >= c.k {
 		c.fired = true
+		c.cancel(errGuardCause)
 		return c.closed
 	}
 	if c.maxPolls > 0 && c.n >= c.maxPolls ||
 		c.n%128 == 0 && (time.Now().After(c.deadline) || heapBytes() > heapLimit) {
 		c.fired, c.budget = true, true
+		c.cancel(errGuardCause)
 		return c.closed
 	}
 	return c.open
